@@ -2,10 +2,11 @@ import LokyModel.Resize
 /-! driver for M1Z (`_resize` as a program-counter machine), line protocol, one line in → exactly one line out:
     `begin <new>` → `ok`   (the pc is reset to the entry)
     `env pending=<n> procs=<pid:0|1,...|-> broken=<0|1> shutdown=<0|1> mw=<n> started=<0|1> feeder=<0|1> nextpid=<n>
-         [last=ok|timeout]`
+         [last=ok|timeout] [res=0|1]`
         → the label of the operation the thread announces next (`acquire(execlock,B)`, …, `acquire(cq.sem,B,T)`, …,
-        `return`); the pc advances.  The result of an `alive(p)` is taken from the `procs` field of the NEXT `env`
-        line; `last` is the variant with which the thread's PREVIOUS operation ended (absent: ok).
+        `return`); the pc advances.  `last` is the variant with which the thread's PREVIOUS operation ended (absent:
+        ok); `res` is the result of the PREVIOUS operation when that was an `alive(p)` (absent: 1; read only then).
+        Of `procs` only the pids and their number are read.
     anything else (also an `env` before the first `begin`, a missing / duplicated / unknown / malformed field)
         → `bad-op` -/
 open LokyModel.Resize
@@ -31,7 +32,7 @@ def parseEnv (ws : List String) : Option Env := do
     | [k, v] => some (k, v)
     | _ => none
   let keys := kvs.map (·.1)
-  let known := ["pending", "procs", "broken", "shutdown", "mw", "started", "feeder", "nextpid", "last"]
+  let known := ["pending", "procs", "broken", "shutdown", "mw", "started", "feeder", "nextpid", "last", "res"]
   if !(keys.all known.contains) || keys.eraseDups.length != keys.length then none
   let get (k : String) : Option String := (kvs.find? (fun kv => kv.1 == k)).map (·.2)
   let pending ← (← get "pending").toNat?
@@ -47,7 +48,10 @@ def parseEnv (ws : List String) : Option Env := do
     | some "ok" => some false
     | some "timeout" => some true
     | some _ => none
-  return { pending, procs, broken, shutdown, mw, started, feeder, nextPid, lastTimeout }
+  let lastAlive ← match get "res" with
+    | none => some true
+    | some v => parseBool v
+  return { pending, procs, broken, shutdown, mw, started, feeder, nextPid, lastTimeout, lastAlive }
 
 /-- `none`: no call in progress -/
 abbrev DState := Option (Nat × Pc)
